@@ -321,7 +321,7 @@ def gen_history(r, cid, nops=None, comp=None, kind=None, rotations=True, direct=
     nops = nops if nops is not None else r.choice([3, 10, 30, max_ops])
     m = ExporterModel(pre)
     nout = 1
-    base_ts = r.randrange(10 ** 9, 2 * 10 ** 9)
+    base_ts = r.randrange(10 ** 9, 2 * 10 ** 9) if r.random() > 0.04 else 0     # some histories play at the epoch itself (instants (0,0))
     aec_keys = [gen_aec(r, P) for _ in range(3)]
     w = dict(qr=45, aec=13, mm=12, wb=8, counters=5, setactive=5, addbp=3, dblock=4, rotate=5, edit=0, rotate_bad=0)
     if weights:
@@ -372,7 +372,12 @@ def gen_history(r, cid, nops=None, comp=None, kind=None, rotations=True, direct=
             # hints edited in place through get_active_block_parameters_ref() and taken into use by a rotation:
             # flush first so that no block filtered under the old hints is pending
             qrh, sigh, rrh, oth = gen_hints(r)
-            for op in ({'op': 'wb'}, {'op': 'edithints', 'qrh': qrh, 'sigh': sigh, 'rrh': rrh, 'oth': oth}):
+            ed = {'op': 'edithints', 'qrh': qrh, 'sigh': sigh, 'rrh': rrh, 'oth': oth}
+            if r.random() < 0.6:
+                # tick rate and block size edited in place as well (same parameter index, new content)
+                ed['tps'] = r.choice([x for x in (1, 1000, 10 ** 6, 10 ** 9) if x != tps] + [r.randrange(1, 10 ** 9 + 1)])
+                ed['max'] = r.choice(MAX_CHOICES)
+            for op in ({'op': 'wb'}, ed):
                 m.apply(op, i)
                 case['ops'].append(op)
             op = {'op': 'rotate', 'id': 'o%d' % nout, 'export': True}
